@@ -395,6 +395,8 @@ func hasSym(v value, depth int) bool {
 	switch v := v.(type) {
 	case sym:
 		return true
+	case poison:
+		return true // path-dependent don't-care value: may only flow into formatting/logging
 	case iface:
 		return hasSym(v.v, depth+1)
 	case structure:
